@@ -333,6 +333,11 @@ struct Interp<RK: RadioKind> {
     saw_loss_or_failure: bool,
     nontrivial: bool,
     classes: Vec<&'static str>,
+    /// a bare wait_for_irq delivered a chip outcome (timeout / error flag, or a received packet)
+    /// that is still latched in the chip because no operation has processed the interrupt yet:
+    /// the next tx/rx/complete_rx/cad reports *that* outcome, whatever its own script holds
+    carried_error: bool,
+    carried_done: bool,
 }
 
 const DUTY: DutyCycleParams = DutyCycleParams { rx_time: 640, sleep_time: 6400 };
@@ -556,7 +561,7 @@ impl<RK: RadioKind> Interp<RK> {
                 // failed because of a chip outcome (timeout, error flag)
                 self.classes.push("chip-outcome-error");
                 self.saw_loss_or_failure = true;
-                let delivered_error = op.irq().iter().any(|e| matches!(e, Ev::Timeout | Ev::CrcError | Ev::HeaderError));
+                let delivered_error = op.irq().iter().any(|e| matches!(e, Ev::Timeout | Ev::CrcError | Ev::HeaderError)) || self.carried_error;
                 if !delivered_error {
                     return Err(self.viol(case, st, "clean-result", format!("unexpected-error/{name}/{e}"), format!("{name} returned {e} although the chip reported {:?}", op.irq())));
                 }
@@ -600,7 +605,8 @@ impl<RK: RadioKind> Interp<RK> {
             }
             (_, Op::StartRx) => {}
             (Res::OkRx(bytes), Op::Rx { .. } | Op::CompleteRx { .. }) => {
-                if leftover == 0 && op.irq().iter().any(|e| matches!(e, Ev::Done | Ev::CrcError)) && *bytes != rx_payload_for(idx) {
+                // (a packet that a bare wait_for_irq let in earlier carries that step's payload)
+                if leftover == 0 && !self.carried_done && !self.carried_error && op.irq().iter().any(|e| matches!(e, Ev::Done | Ev::CrcError)) && *bytes != rx_payload_for(idx) {
                     return Err(self.viol(case, st, "clean-result", format!("rx-payload/{name}"), format!("{name} returned {} but the chip received {}", hex(bytes), hex(&rx_payload_for(idx)))));
                 }
             }
@@ -616,6 +622,28 @@ impl<RK: RadioKind> Interp<RK> {
                 self.sync = *word;
             }
             _ => {}
+        }
+
+        // ---- outcomes a bare wait_for_irq leaves latched for the next operation
+        match op {
+            Op::WaitIrq { irq } => {
+                if self.world.borrow().chip.irq_line() {
+                    if irq.iter().any(|e| matches!(e, Ev::Timeout | Ev::CrcError | Ev::HeaderError)) {
+                        self.carried_error = true;
+                    }
+                    if irq.iter().any(|e| matches!(e, Ev::Done | Ev::DoneDetected | Ev::CrcError)) {
+                        self.carried_done = true;
+                    }
+                }
+            }
+            // any other call: forgotten as soon as no interrupt flag is pending any more (the call
+            // processed or cleared it)
+            _ => {
+                if !self.world.borrow().chip.irq_line() {
+                    self.carried_error = false;
+                    self.carried_done = false;
+                }
+            }
         }
 
         // ---- I3 on values: what went on air / what the receiver listens to is what was asked for
@@ -670,6 +698,15 @@ impl<RK: RadioKind> Interp<RK> {
                 return Err(self.viol(case, st, "I5", format!("i5/{name}/belief-{b}-chip-asleep"), format!("after {name}: driver believes {b}, chip sleeps")))
             }
             _ => {}
+        }
+        // the rest of the driver's belief (hook verif_mode(): cold_start, calibrate_image): a driver
+        // that neither plans a cold start nor an image calibration believes the chip still holds
+        // the calibration of the operating band
+        let (_, cold_start, calibrate_image) = self.lora.verif_mode();
+        if let Some(false) = self.world.borrow().chip.image_calibrated() {
+            if !cold_start && !calibrate_image {
+                return Err(self.viol(case, st, "I5", format!("i5/{name}/belief-image-calibrated-chip-lost-it"), format!("after {name}: the driver plans neither a cold start nor an image calibration (cold_start = false, calibrate_image = false), but the chip has lost its configuration and no CalibrateImage has been issued since")));
+            }
         }
         let started = matches!((&res, op), (Res::Ok, Op::StartRx | Op::RxSwitch { .. } | Op::Listen { .. })) || (res == Res::Pending && matches!(op, Op::Rx { .. }));
         if started && !chip_rx {
@@ -743,7 +780,7 @@ fn interp<RK: RadioKind>(rk: RK, world: Shared, case: &Case) -> RunOut {
         out.failure = Some(Failure::new(v.rule, cj, v.detail.clone()).with_fp(v.fp.clone()));
         return out;
     }
-    let mut it = Interp { lora, world: world.clone(), board: case.board, proto: PMode::Standby, sync: 0x3444, sync_alt: None, recovering: false, exp_freq: None, exp_payload: vec![], saw_loss_or_failure: false, nontrivial: false, classes: vec![] };
+    let mut it = Interp { lora, world: world.clone(), board: case.board, proto: PMode::Standby, sync: 0x3444, sync_alt: None, recovering: false, exp_freq: None, exp_payload: vec![], saw_loss_or_failure: false, nontrivial: false, classes: vec![], carried_error: false, carried_done: false };
     let mut faulted = false;
     for (idx, op) in case.ops.iter().enumerate() {
         match it.step(case, idx, op) {
@@ -1036,6 +1073,39 @@ pub fn fault_enumeration(st: &mut Stats, env: &Env, board: Board, prefix: &[Op],
     }
 }
 
+/// Re-initialisation after activity: for every sequence s of `depth` calls, the history
+/// s ++ [init] with a fault at every interaction of that second init() (the interactions of s are
+/// skipped: `fault_enumeration` covers them), followed by a fault-free prepare+tx and,
+/// separately, prepare+rx. `stride` thins the base sequences.
+pub fn fault_enumeration_reinit(st: &mut Stats, env: &Env, board: Board, depth: usize, stride: u64, ti: usize, nthreads: usize) {
+    let alpha = alphabet(board);
+    let total = (alpha.len() as u64).pow(depth as u32);
+    let mut n = (ti as u64) * stride;
+    while n < total {
+        let before = seq_of(&alpha, n, depth);
+        n += nthreads as u64 * stride;
+        let first = run_case(&Case::plain(board, before.clone(), false));
+        if first.failure.is_some() || first.ended != "completed" {
+            continue; // judged by the exhaustive generator / the history cannot continue
+        }
+        let mut ops = before;
+        ops.push(Op::Init);
+        let base = Case::plain(board, ops, false);
+        let out = run_case(&base);
+        if out.failure.is_some() {
+            continue;
+        }
+        for k in first.interactions..out.interactions {
+            for rec in [Recovery::Tx, Recovery::Rx] {
+                let mut c = base.clone();
+                c.fault_at = Some(k);
+                c.recovery = Some(rec);
+                eval_case(st, env, &c, "fault-in-reinit-after-activity");
+            }
+        }
+    }
+}
+
 // ---- random sequences (proptest)
 
 use proptest::prelude::*;
@@ -1148,11 +1218,14 @@ pub fn run(ctx: &mut Ctx) {
             for p in prefixes(board) {
                 fault_enumeration(st, &env, board, &p, if thorough { 2 } else { 1 }, 1, ti, n);
             }
+            // a second init() after every sequence of depth 2 (quick) / 3 (thorough, every 3rd),
+            // with a fault at every interaction of that init
+            fault_enumeration_reinit(st, &env, board, if thorough { 3 } else { 2 }, if thorough { 3 } else { 1 }, ti, n);
         }
         super::c14_adapter::run_part(st, &env, thorough, ti, n);
         random_sequences(st, &env, random_cases / n as u32 + 1, seed ^ (ti as u64).wrapping_mul(0x9E37_79B9_7F4A_7C15));
     });
-    ctx.rule = "One evaluation = one executed history (LoRa::new + API calls + interrupt outcomes [+ one failed bus/line interaction + recovery sequence]) on a chip model, judged step by step by I1-I5. Generated: (a) every API sequence of depth 3 (quick; depth 4 for two boards) / 4 (thorough) over the alphabet listed in `alphabet`, for 5 boards, both duty-cycle phase inputs; (b) the same suffix enumeration after 6-7 prefixes (cold/warm sleep, timed-out RX and TX, cancelled continuous RX, sync word change + cold sleep, running RX duty cycle); (c) fault enumeration: for every sequence of depth 2 (quick) / 3 (thorough) and every prefix+depth-1 (2) sequence, one variant per bus/line interaction k (SPI transfer, BUSY wait, IRQ wait, reset, RF switch) failing exactly k, each followed by a fault-free prepare_for_tx+tx and, separately, prepare_for_rx+rx; (d) cancellation: wait_for_irq and rx/complete_rx in continuous mode dropped at every pending point their interrupt script reaches; (e) random sequences to depth 30 (proptest, shrinking); (f) the LorawanRadio adapter: all sequences of depth 4 (quick) / 5 (thorough) over its alphabet plus fault variants. Non-trivial (counted by hash of the case): the history contains a sleep, a failed/timed-out or a cancelled operation, or an injected fault, and a transmission or reception actually starts on the chip afterwards.".into();
+    ctx.rule = "One evaluation = one executed history (LoRa::new + API calls + interrupt outcomes [+ one failed bus/line interaction + recovery sequence]) on a chip model, judged step by step by I1-I5. Generated: (a) every API sequence of depth 3 (quick; depth 4 for two boards) / 4 (thorough) over the alphabet listed in `alphabet`, for 5 boards, both duty-cycle phase inputs; (b) the same suffix enumeration after 6-7 prefixes (cold/warm sleep, timed-out RX and TX, cancelled continuous RX, sync word change + cold sleep, running RX duty cycle); (c) fault enumeration: for every sequence of depth 2 (quick) / 3 (thorough) and every prefix+depth-1 (2) sequence, one variant per bus/line interaction k (SPI transfer, BUSY wait, IRQ wait, reset, RF switch) failing exactly k, each followed by a fault-free prepare_for_tx+tx and, separately, prepare_for_rx+rx; (c') re-initialisation after activity: every sequence of depth 2 (quick) / every third of depth 3 (thorough) followed by init(), one variant per interaction of that init failing, same two recoveries; (d) cancellation: wait_for_irq and rx/complete_rx in continuous mode dropped at every pending point their interrupt script reaches; (e) random sequences to depth 30 (proptest, shrinking); (f) the LorawanRadio adapter: all sequences of depth 4 (quick) / 5 (thorough) over its alphabet plus fault variants. Non-trivial (counted by hash of the case): the history contains a sleep, a failed/timed-out or a cancelled operation, or an injected fault, and a transmission or reception actually starts on the chip afterwards.".into();
     ctx.assumptions = vec![
         "chip126x/chip127x are the trusted base: datasheet-level models (mode machine, register file with reset values, buffer/FIFO, IRQ flags and masks, configuration loss at reset / cold-sleep wake-up) written from the SX1261/2 and SX1276/SX1272 datasheets with hard-coded opcodes and addresses".into(),
         "a failed SPI transfer does not reach the chip; a failed BUSY/IRQ wait or RF-switch call leaves the chip untouched; after an injected fault only I2, I3, 'the error is returned', 'no panic' and success of the next fault-free prepare+tx / prepare+rx are required (not I4/I5)".into(),
@@ -1170,6 +1243,6 @@ pub fn run(ctx: &mut Ctx) {
         "I2": "no SPI command other than the GetStatus wake-up reaches a sleeping SX126x (also in the sleep phase of RX duty cycle); no FIFO access on a sleeping SX127x; no BUSY wait on a sleeping SX126x",
         "I3": "at SetTx/SetRx/SetRxDutyCycle (RegOpMode TX/RX): packet type/LoRa mode, sync word, regulator/TCXO when configured, buffer bases, modulation, packet and IRQ parameters, frequency (+payload for TX) programmed since the last configuration loss, and sync word / frequency / payload have the requested values",
         "I4": "after an operation failed because of a chip outcome the chip is in standby and verif_mode() says Standby; a panic counts as a violation with the panic location as fingerprint",
-        "I5": "after every call: belief Sleep => chip asleep, belief Standby => chip in standby, belief TX/RX/CAD/Listen => chip not asleep, started reception => chip receiving, belief == what the call history implies",
+        "I5": "after every call: (SX126x) cold_start = false and calibrate_image = false => CalibrateImage issued since the chip last lost its configuration; belief Sleep => chip asleep, belief Standby => chip in standby, belief TX/RX/CAD/Listen => chip not asleep, started reception => chip receiving, belief == what the call history implies",
     }));
 }
